@@ -70,3 +70,71 @@ package core
 //@ func mulInt(x, y) (r, ok)
 //@   arith wrap
 //@   ensures! def: (ok <==> fits64(x * y)) && (ok ==> r == x * y)
+
+//@ property C28 C26
+
+// ---- value classes -----------------------------------------------------------
+//@ spec isNumV(v Value) bool = typeis(v, "*smi") || typeis(v, "SuInt64") || typeis(v, "SuDnum")
+//@ func (v Value) Type() (t)
+//@   assumed
+//@   pure
+//@   ensures 0 <= t
+//@   ensures isNumV(v) ==> t == types.Number
+//@   ensures typeis(v, "SuBool") ==> t == types.Boolean
+//@   ensures typeis(v, "SuStr") ==> t == types.String
+//@   ensures typeis(v, "SuDate") || typeis(v, "SuTimestamp") ==> t == types.Date
+//@ func (si *smi) Type() (t)
+//@   ensures! t == types.Number
+//@ func (si SuInt64) Type() (t)
+//@   ensures! t == types.Number
+//@ func (dn SuDnum) Type() (t)
+//@   ensures! t == types.Number
+//@ func (b SuBool) Type() (t)
+//@   ensures! t == types.Boolean
+//@ func (s SuStr) Type() (t)
+//@   ensures! t == types.String
+//@ func (d SuDate) Type() (t)
+//@   ensures! t == types.Date
+
+// class order: boolean < number < string < date < object < other
+//@ func Order(x) (r)
+//@   nonil
+//@   ensures! range: 0 <= r && r <= 5
+//@   ensures! bool: typeis(x, "SuBool") ==> r == 0
+//@   ensures! num: isNumV(x) ==> r == 1
+//@   ensures! str: typeis(x, "SuStr") ==> r == 2
+//@   ensures! date: typeis(x, "SuDate") || typeis(x, "SuTimestamp") ==> r == 3
+
+// ---- hashing: equal numbers hash equally whatever their representation --------
+//@ spec hashInt(n int) int = mod(mod(n, 18446744073709551616) * 11400714819323198485, 18446744073709551616)
+//@ func (si *smi) Hash() (r)
+//@   arith wrap
+//@   ensures! r == hashInt(absval(si))
+//@ func (si SuInt64) Hash() (r)
+//@   arith wrap
+//@   ensures! r == hashInt(si.int64)
+//@ func (dn SuDnum) Hash() (r)
+//@   arith wrap
+//@   ensures! int: dnIsInt(dn.Dnum) && !(dn.Dnum.exp == 19 && dn.Dnum.coef >= 9223372036854775) ==> r == hashInt(dnIntVal(dn.Dnum))
+
+// ---- equality across representations ----------------------------------------------
+//@ func (dn SuDnum) IfInt() (n, ok)
+//@   ensures ok ==> dnIsInt(dn.Dnum) && n == dnIntVal(dn.Dnum)
+//@   ensures !ok ==> !dnIsInt(dn.Dnum) || (dn.Dnum.exp == 19 && dn.Dnum.coef >= 9223372036854775)
+//@ func (si *smi) Equal(other) (r)
+//@   requires -32768 <= absval(si) && absval(si) <= 32767
+//@   ensures! int: isIntV(other) ==> (r <==> absval(si) == ivalV(other))
+//@   ensures! dnum: typeis(other, "SuDnum") ==> (r <==> dnIsInt(unbox(other, "SuDnum").Dnum) && dnIntVal(unbox(other, "SuDnum").Dnum) == absval(si))
+//@   ensures! other: !isNumV(other) ==> !r
+//@ func (si SuInt64) Equal(other) (r)
+//@   ensures! int: isIntV(other) ==> (r <==> si.int64 == ivalV(other))
+//@   ensures! dnum: typeis(other, "SuDnum") && !(unbox(other, "SuDnum").Dnum.exp == 19 && unbox(other, "SuDnum").Dnum.coef >= 9223372036854775) ==> (r <==> dnIsInt(unbox(other, "SuDnum").Dnum) && dnIntVal(unbox(other, "SuDnum").Dnum) == si.int64)
+//@   ensures! other: !isNumV(other) ==> !r
+//@ func (dn SuDnum) Equal(other) (r)
+//@   ensures! dnum: typeis(other, "SuDnum") ==> (r <==> dn.Dnum.sign == unbox(other, "SuDnum").Dnum.sign && dn.Dnum.exp == unbox(other, "SuDnum").Dnum.exp && dn.Dnum.coef == unbox(other, "SuDnum").Dnum.coef)
+//@   ensures! int: isIntV(other) && -9999999999999999 <= ivalV(other) && ivalV(other) <= 9999999999999999 ==> (r <==> dnIsInt(dn.Dnum) && dnIntVal(dn.Dnum) == ivalV(other))
+//@   ensures! other: !isNumV(other) ==> !r
+
+// Equal(x, y) implies Hash(x) == Hash(y) for every pair of numeric representations
+// (integers of up to 16 digits; see DESIGN.md for the 17..19 digit corner)
+//@ lemma! equal_hash_int_dnum(i int64, d SuDnum): -9999999999999999 <= i && i <= 9999999999999999 && dnIsInt(d.Dnum) && dnIntVal(d.Dnum) == i ==> hashInt(dnIntVal(d.Dnum)) == hashInt(i)
